@@ -60,6 +60,8 @@
             ==> r.unwrap().last_applied_log == la && r.unwrap().raft_index == d),
         // and the in-memory state is what the file holds afterwards; the header is always present
         r is Ok && disk_at_open(path@).len() > 20 ==> r.unwrap().wf(),
+        // a fresh (or short) file is initialised to an image that holds exactly what the node starts with: last-applied 0 behind a RAW 8-byte header (S21)
+        r is Ok && disk_at_open(path@).len() <= 20 ==> r.unwrap().wf() && r.unwrap().last_applied_log == 0,   // @S21
         r is Ok ==> r.unwrap().file.contents().len() >= 8,
 @@ RaftIndexInnerManager::init entry
     broadcast use axiom_be64_len;
@@ -133,3 +135,16 @@
             && final(self).inner.unwrap().raft_index == (RaftIndexDto { snapshots: snapshots, ..old(self).inner.unwrap().raft_index })
             && final(self).last_handed@ == Some((final(self).inner.unwrap().raft_index, false)),
         old(self).inner is None ==> r is Err,
+@@ RaftIndexInnerManager::init after_call flush 1
+    proof {
+        // S21: the fresh image is the raw header be64(0) followed by the framed default record
+        let c1 = file.contents();
+        let n = pb_frame(index).len() as int;
+        assert(buf@ =~= be64(0).add(pb_frame(index)));
+        assert(c1.subrange(0, 8 + n) == buf@);
+        assert(c1.take(8) =~= buf@.take(8));
+        assert(buf@.take(8) =~= be64(0));
+        assert(c1.subrange(8, 8 + n) =~= buf@.subrange(8, 8 + n));
+        assert(buf@.subrange(8, 8 + n) =~= pb_frame(index));
+        assert(holds(c1, 0, index));
+    }
